@@ -156,6 +156,8 @@ def _gates(tier):
                fault=lambda: open_hds(b"WithoutFreeSpacE" + h[16:]))
     # ---- Parallels image type / descriptor presence
     yield dict(name="parallels.image_type", kind="text", value="Compressed", others=["Plain"], open_text=_open_hdd_type)
+    yield dict(name="parallels.image_type.ancestor", kind="text", value="Compressed", others=["Plain"],
+               open_text=lambda s: _open_hdd_type("Compressed", ancestor_type=s))
     yield dict(name="parallels.descriptor_present", kind="single", seed_ok=lambda: _open_hdd_type("Compressed"),
                fault=lambda: _open_hdd_type("Compressed", drop_descriptor=True))
     # ---- VMDK descriptor-declared sparse extents and footer copy
@@ -251,7 +253,7 @@ def _open_vmdk_desc(raw, kind):
                 dsk.fh.close()
 
 
-def _open_hdd_type(typ, drop_descriptor=False):
+def _open_hdd_type(typ, drop_descriptor=False, ancestor_type=None):
     from dissect.hypervisor.disk.hdd import HDD
 
     from mc.builders import hdd as BH
@@ -260,9 +262,21 @@ def _open_hdd_type(typ, drop_descriptor=False):
         hd = os.path.join(d, "x.hdd")
         os.mkdir(hd)
         BH.build_hds([DATA, HOLE], [1, None], 8, 2).write_to(os.path.join(hd, "x.hds"))
+        images, shots = [(BH.DEFAULT_TOP, typ, "x.hds")], [(BH.DEFAULT_TOP, BH.NULL_GUID)]
+        if ancestor_type is not None:
+            g0 = "{00000001-0000-4000-8000-000000000000}"
+            if ancestor_type == "Plain":
+                from mc import pattern
+
+                with open(os.path.join(hd, "base.hds"), "wb") as f:
+                    f.write(pattern.sectors(3, 0, 16))
+            else:
+                BH.build_hds([DATA, DATA], [1, 2], 8, 2, layer=3).write_to(os.path.join(hd, "base.hds"))
+            images = [(g0, ancestor_type, "base.hds")] + images
+            shots = [(g0, BH.NULL_GUID), (BH.DEFAULT_TOP, g0)]
         if not drop_descriptor:
             with open(os.path.join(hd, "DiskDescriptor.xml"), "w") as f:
-                f.write(BH.descriptor_xml(16, [(0, 16, [(BH.DEFAULT_TOP, typ, "x.hds")])], [(BH.DEFAULT_TOP, BH.NULL_GUID)]))
+                f.write(BH.descriptor_xml(16, [(0, 16, images)], shots))
         s = HDD(Path(hd)).open()
         try:
             return s.read(512)
